@@ -9,6 +9,10 @@
 (*        "r2":{...}}]}                                   a mate key is absent when it is None   *)
 (*  {"ev":"cons","tid":n,"kind":"base"|"perm"|"dup","dove":b,"order":[i,..],                     *)
 (*        "consensus":[{"c":"chr1","pos":p,"b":"A"},..]}      or   "raised":"<ExceptionType>"    *)
+(*     + "path":"plain"|"probs" (get_consensus() / get_consensus(with_probs_and_obs=True)[0]),    *)
+(*     kind "inc": the same molecule object queried after an intermediate addition (order = the  *)
+(*     fragments added so far), kind "alt": the other return shape at the end of a run; both are *)
+(*     judged against the same P-level definition (Inv_C13_Majority "at any time").               *)
 (*     order = 1-based indices into the frags of the latest "mol" event, in insertion order;     *)
 (*     kind "base" is the reference run of a molecule, "perm" a permutation of the same          *)
 (*     multiset, "dup" every fragment of the base run added twice.                               *)
